@@ -190,10 +190,21 @@ def recGet (v : Val) (i : Nat) : Val :=
   | .strct fs => fs.getD i .opaque
   | _ => .opaque
 
+/-- `l.set i x`, extended with `opaque` slots when `i` is beyond the end -/
+def setPad : List Val → Nat → Val → List Val
+  | [], 0, x => [x]
+  | [], i + 1, x => Val.opaque :: setPad [] i x
+  | _ :: r, 0, x => x :: r
+  | a :: r, i + 1, x => a :: setPad r i x
+
+/-- `Field(i).Set(x)`.  For a struct value with a slot `i` (every value of a struct type has one per
+    declared field) this is `fs.set i x`; for values that do not have the shape of their type — which
+    Go cannot produce — the slot is created, so that the read/write laws of the walk hold for every
+    `Val` and no theorem depends on a shape premise. -/
 def recSet (v : Val) (i : Nat) (x : Val) : Val :=
   match v with
-  | .strct fs => .strct (fs.set i x)
-  | _ => v
+  | .strct fs => .strct (setPad fs i x)
+  | _ => .strct (setPad [] i x)
 
 def fieldAt (t : Ty) (i : Nat) : Option Field := (structFields t)[i]?
 
@@ -379,6 +390,13 @@ def firstField (name : String) : List FlatField → Option FlatField
 def byteVals (b : Bytes) : List Val := b.map (fun x => Val.uint x.toNat)
 def valBytes (vs : List Val) : Bytes := vs.map (fun v => match v with | .uint n => UInt8.ofNat n | _ => 0)
 
+/-- a value of a struct type has exactly one slot per declared field (reflect: `NumField`).  A `Val`
+    with another arity is not a Go value; it is brought to the arity of its type (identity on every
+    value the harness or the decoder itself can produce) so that no theorem needs a shape premise. -/
+def fitStruct (n : Nat) : Val → Val
+  | .strct xs => .strct ((xs ++ List.replicate n Val.opaque).take n)
+  | _ => .strct (List.replicate n Val.opaque)
+
 /-- what `indirect` finds behind a pointer: the pointee, or a freshly allocated zero value -/
 def ptrInner (e : Ty) : Val → Val
   | .ptr (some x) => x
@@ -443,14 +461,14 @@ def decodeInto : Nat → Ty → Val → Wire → PO Val
       | .bigint => pure cur        -- Kind Struct without any `jwt`-tagged field: every member is ignored
       | .time => pure cur
       | .url => pure cur
-      | .struct _ _ =>
+      | .struct _ fs =>
         kvs.foldlM (fun (sv : Val) (kv : String × Wire) =>
           match firstField kv.1 (typeFields t) with
           | none => pure sv
           | some f => do
             let tv ← PO.ofOutcome (walkGet true f.index t true sv)
             let x ← decodeInto fuel tv.1 tv.2 kv.2
-            pure (walkSet f.index t sv x)) cur
+            pure (walkSet f.index t sv x)) (fitStruct fs.length cur)
       | .map strKey e =>
         -- a key kind other than String cannot be produced from a JSON member name: error
         if !strKey then PO.fail "convert"
